@@ -185,15 +185,19 @@ CHECKS["C13"] = {
 # ---------------------------------------------------------------- C01
 WORLD = ["internal_ctlog/zz_verif_world.go"]
 c01_cases = [
-    case("n0=0 1 round pool 1 F=1 C=0", "VerifC01", [0, 1, 1, 1, 0], ["final", "audited"], Q),
-    case("n0=0 1 round pool 1 F=0 C=1", "VerifC01", [0, 1, 1, 0, 1], ["final", "audited"], Q),
-    case("n0=1 2 rounds pool 1 F=1 C=0", "VerifC01", [1, 2, 1, 1, 0], ["final", "audited", "fatal"], Q),
-    case("n0=255 1 round pool 2 F=1 C=0", "VerifC01", [255, 1, 2, 1, 0], ["final", "audited"], Q),
-    case("n0=255 1 round pool 2 F=0 C=1", "VerifC01", [255, 1, 2, 0, 1], ["final", "audited"], Q),
-    case("n0=0 2 rounds pool 2 F=1 C=1", "VerifC01", [0, 2, 2, 1, 1], ["final", "audited"], T),
-    case("n0=254 2 rounds pool 3 F=1 C=1", "VerifC01", [254, 2, 3, 1, 1], ["final", "audited"], T),
-    case("n0=256 2 rounds pool 2 F=2 C=1", "VerifC01", [256, 2, 2, 2, 1], ["final", "audited"], T),
-    case("n0=2 3 rounds pool 1 F=2 C=2", "VerifC01", [2, 3, 1, 2, 2], ["final", "audited"], T),
+    # VerifC01(n0, rounds, pool, faults, crashes, clock) ; clock 0 = arbitrary readings, 1 = strictly increasing
+    case("n0=0 1 round pool 1 F=1 C=0 arbitrary clock", "VerifC01", [0, 1, 1, 1, 0, 0], ["final", "audited", "fatal"], Q),
+    case("n0=0 1 round pool 1 F=0 C=1 arbitrary clock", "VerifC01", [0, 1, 1, 0, 1, 0], ["final", "audited"], Q),
+    case("n0=1 2 rounds pool 1 no faults arbitrary clock", "VerifC01", [1, 2, 1, 0, 0, 0], ["final", "audited", "fatal"], Q),
+    case("n0=0 2 rounds pool 1 F=0 C=1 arbitrary clock", "VerifC01", [0, 2, 1, 0, 1, 0], ["final", "audited"], Q),
+    case("n0=255 1 round pool 2 F=1 C=0", "VerifC01", [255, 1, 2, 1, 0, 1], ["final", "audited"], Q),
+    case("n0=255 1 round pool 2 F=0 C=1", "VerifC01", [255, 1, 2, 0, 1, 1], ["final", "audited"], Q),
+    case("n0=1 2 rounds pool 1 F=1 C=0 arbitrary clock", "VerifC01", [1, 2, 1, 1, 0, 0], ["final", "audited", "fatal"], T),
+    case("n0=0 2 rounds pool 2 F=1 C=1", "VerifC01", [0, 2, 2, 1, 1, 1], ["final", "audited"], T),
+    case("n0=255 1 round pool 2 F=1 arbitrary clock", "VerifC01", [255, 1, 2, 1, 0, 0], ["final", "audited"], T),
+    case("n0=254 2 rounds pool 3 F=1 C=1", "VerifC01", [254, 2, 3, 1, 1, 1], ["final", "audited"], T),
+    case("n0=256 2 rounds pool 2 F=2 C=0", "VerifC01", [256, 2, 2, 2, 0, 1], ["final", "audited"], T),
+    case("n0=2 3 rounds pool 1 F=1 C=1 arbitrary clock", "VerifC01", [2, 3, 1, 1, 1, 0], ["final", "audited"], T),
 ]
 CHECKS["C01"] = {
     "level": "model_checking",
@@ -295,6 +299,31 @@ CHECKS["C17"] = {
                "thorough": "pool size 3 with 5 arrivals, pool size 2 with 6 arrivals, stops after two rounds"},
     "assumptions": WORLD_ASSUME + ["virtual time: the ticker fires when the harness says so; time.Since is a harness-controlled value", "HTTP status mapping (503/410/500) is checked in C09's harness",
                                    "goroutine scheduling is cooperative: the sequencer goroutine runs until it blocks"],
+}
+
+# ---------------------------------------------------------------- C14
+WITNESS = {"pkg": "filippo.io/sunlight/internal/witness", "pkgname": "witness"}
+WW = ["internal_witness/zz_verif_wworld.go"]
+# VerifC14History(size, forkAt, requests, faults, restart)
+c14_cases = [
+    # VerifC14History(size, forkAt, requests, faults, restart, firstValid)
+    case("size 3 fork at 1, valid request then any request", "VerifC14History", [3, 1, 2, 0, 0, 1], ["done", "cosigned", "409", "403", "422"], Q),
+    case("size 3 fork at 1, valid then any, one fault, restart", "VerifC14History", [3, 1, 2, 1, 1, 1], ["done", "cosigned", "500", "restarted"], Q),
+    case("size 2 fork at 1, first request arbitrary", "VerifC14History", [2, 1, 1, 0, 0, 0], ["done", "cosigned", "409", "403", "400"], Q),
+    case("unknown log", "VerifC14Unknown", [], ["404"], Q),
+    case("size 3 fork at 1, two arbitrary requests, one fault", "VerifC14History", [3, 1, 2, 1, 0, 0], ["done", "cosigned", "500"], T),
+    case("size 5 fork at 2, valid then two arbitrary requests", "VerifC14History", [5, 2, 3, 0, 1, 1], ["done", "cosigned"], T),
+    case("size 5 fork at 2, valid then any, two faults", "VerifC14History", [5, 2, 2, 2, 1, 1], ["done", "cosigned", "500"], T),
+]
+CHECKS["C14"] = {
+    "level": "model_checking",
+    "jobs": [dict(WITNESS, harness=WW + ["internal_witness/zz_verif_c14.go"], native=False, cases=c14_cases)],
+    "bounds": {"quick": "a log of 3 leaves forked at 1; 2 add-checkpoint requests with symbolic old size, new size, branch, proof (right, corrupted, empty) and signature (valid, wrong key, unknown key); one lock/storage fault (applied or not); optional restart between requests",
+               "thorough": "5 leaves forked at 2; 3 requests"},
+    "assumptions": [IDEAL_HASH, "log signatures: ideal MAC keyed by the log key; witness Ed25519 / ML-DSA signatures: ideal deterministic signatures (opaque keys)",
+                    "tlog.CheckTree, note.Open/Sign, torchwood checkpoint parsing and cosignature code are executed from their real source",
+                    "witness configuration JSON is modelled (stored map of logs); concurrency: updateCheckpoint is one critical section of the per-log mutex, so concurrent requests are request orderings",
+                    "lock store = a correct CAS register with fault injection"],
 }
 
 # ---------------------------------------------------------------- manifest texts
